@@ -10,6 +10,10 @@ BAD_REPLIES = {
     "invalid-utf8-content": bytes([1 << 2]) + dc.vstr("p.txt") + bytes([2 << 2, 0xc3, 0x28]) + b"\xfc" + b"\x00",
     "invalid-bool": b"\x00" + bytes([1 << 2]) + b"\x02\x00" + dc.vstr("m") + b"\xfc",
     "invalid-level": b"\x00" + bytes([1 << 2]) + b"\x00\x07" + dc.vstr("m") + b"\xfc",
+    "invalid-level-3": b"\x00" + bytes([1 << 2]) + b"\x00\x03" + dc.vstr("m") + b"\xfc",
+    "invalid-level-3-after-file": bytes([1 << 2]) + dc.vstr("out.txt") + dc.vstr("hi") + b"\xfc" + bytes([1 << 2]) + b"\x00\x03" + dc.vstr("m") + b"\xfc",
+    "invalid-level-4": b"\x00" + bytes([1 << 2]) + b"\x01\x04" + dc.vstr("m") + dc.vstr("src") + b"\xfc",
+    "invalid-level-255": b"\x00" + bytes([1 << 2]) + b"\x00\xff" + dc.vstr("m") + b"\xfc",
     "huge-size": b"\xff\xff\xff\xff\xff\xff\xff\xff",
     "huge-string": bytes([1 << 2]) + b"\xfe\xff\xff\xff",
     "missing-tag-end": bytes([1 << 2]) + dc.vstr("p.txt") + dc.vstr("c"),
